@@ -1085,6 +1085,8 @@ class HTTPResponse(BaseHTTPResponse):
 
         if self._connection:
             self._connection.close()
+            # Hand the (now closed) connection back so the pool gets its slot back.
+            self.release_conn()
 
         if not self.auto_close:
             io.IOBase.close(self)
